@@ -40,7 +40,7 @@ PROPS = {
             "sequential use of one SignatureCache (&mut self)",
         ],
         "clauses_not_decided": [
-            "injectivity of the tail of the canonical encoding (sequence, name, endpoints, timestamp, lifetime) is proved only under the documented name bound; None vs Some(\"\") encode identically (a record with an empty name cannot be constructed)",
+            "a record whose name is Some(\"\") encodes like name = None (both as a zero length prefix); such a record is outside the documented bounds (construction refuses an empty name), so field coverage is proved under the documented name bound",
             "PeerDHTRecord::new (placeholder signature built from a boxed array; outside the extraction) -- its bounds check is the extracted validate_inputs",
         ],
         "explanation": "Verus proves on the mechanically extracted text of validate_inputs, create_signable_message, verify_signature, SignatureCache::{new, cache_key, verify_cached}: construction bounds exact; the signed message is the canonical encoding of every field; verify_signature succeeds iff the user id is derived from the embedded key and the signature verifies over this record; the cache invariant (every memoised verdict equals the direct verdict of every record mapping to that key) is kept for every capacity >= 0 and every eviction choice, hence verify_cached == verify_signature for all histories.",
